@@ -2169,11 +2169,17 @@ def h_full(ev, args, kwargs, fr, node):
     return out
 
 
-def h_array(ev, args, kwargs, fr, node):
+def h_array(ev, args, kwargs, fr, node, strip=False):
     x = args[0]
     if isinstance(x, StrV):
         return OpaqueV("strarray", x)
     dt = kwargs.get("dtype", args[1] if len(args) > 1 else NONE)
+    subok = kwargs.get("subok")
+    if strip and not (isinstance(subok, BoolV) and subok.b) and isinstance(x, Num) and x.kind == "quantity" and x.tag != "unit":
+        # np.array / np.asarray return a base-class ndarray: a Quantity loses its unit (its numbers in the current unit remain)
+        ev.trace.append(("subclass-stripped", norm(node) if node is not None else "", x))
+        v = num_getattr(ev, x, "value", fr, node)
+        x = Num(v.expr, kind="array", shape=v.shape if v.shape is not None else (), axes=v.axes, backend=x.backend, tag=x.tag, dtype=x.dtype, isfloat=True)
     if isinstance(x, Num) and not isinstance(dt, NoneV) and x.kind in ("array",):
         return x.like(x.expr, dtype=dt)
     if isinstance(x, (Num, NdArr)):
@@ -2840,7 +2846,8 @@ EXT = {
     "numpy.full": lambda ev, a, k, fr, n: h_full(ev, a, k, fr, n),
     "numpy.unravel_index": lambda ev, a, k, fr, n: h_unravel_index(ev, a, k, fr, n),
     "numpy.can_cast": lambda ev, a, k, fr, n: h_can_cast(ev, a, k, fr, n),
-    "numpy.array": h_array, "numpy.asarray": h_array, "numpy.asanyarray": h_array,
+    "numpy.array": lambda ev, a, k, fr, n: h_array(ev, a, k, fr, n, strip=True), "numpy.asarray": lambda ev, a, k, fr, n: h_array(ev, a, k, fr, n, strip=True),
+    "numpy.asanyarray": h_array,
     "dask.array.asanyarray": lambda ev, a, k, fr, n: a[0].like(a[0].expr, backend="dask") if isinstance(a[0], Num) else a[0],
     "dask.array.asarray": lambda ev, a, k, fr, n: a[0].like(a[0].expr, backend="dask") if isinstance(a[0], Num) else a[0],
     "numpy.stack": h_stack, "numpy.concatenate": h_concatenate, "numpy.moveaxis": h_moveaxis, "numpy.swapaxes": h_swapaxes, "numpy.flip": h_flip, "numpy.take": h_take, "numpy.nditer": h_nditer, "numpy.broadcast_to": h_broadcast_to,
@@ -2918,7 +2925,8 @@ def call_ext(ev, fn: ExtV, args, kwargs, fr, node):
                 res.append(given)       # numpy returns the given out array itself
             else:
                 exprs = [a.expr if isinstance(a, Num) else sp.Symbol("arg_" + type(a).__name__) for a in args]
-                res.append(Num(sp.Function(f"Ufunc_{name}_{k}")(*exprs), kind="array", tag="data",
+                res.append(Num(sp.Function(f"Ufunc_{name}_{k}")(*exprs), tag="data",
+                               kind="quantity" if any(isinstance(a, Num) and a.kind == "quantity" and a.tag != "unit" for a in args) else "array",
                                shape=next((a.shape for a in args if isinstance(a, Num) and a.shape), None),
                                dtype=next((a.dtype for a in args if isinstance(a, Num) and a.dtype is not None), None),
                                backend=next((a.backend for a in args if isinstance(a, Num) and a.backend), None)))
